@@ -40,6 +40,16 @@ def c06(tier, seed):
 
 
 def c09(tier, seed):
+    r = _c09(tier, seed)
+    m = mcp_check(tier, seed)      # explain_matching must find a security's disposal whatever else was sold that day
+    r['findings'] += [f for f in m['findings'] if f['prop'] == 'C09']
+    r['coverage']['mcp_sessions'] = m['coverage'].get('sessions', 0)
+    r['coverage']['states'] += m['coverage']['states']
+    r['coverage']['transitions'] += m['coverage']['transitions']
+    return r
+
+
+def _c09(tier, seed):
     return combine(fam_list(tier, ['two_q', 'two_split_q', 'two_fills_q'], ['two_t']) + laws(tier, ['project_q'], ['project_t']), ['covered', 'nontrivial'],
                    'two-security cell ledgers (TLC checks OthersUntouched on every step); each security\'s legs, costs and '
                    'holding must equal the single-security specification outcome whatever the other security does and '
